@@ -146,6 +146,10 @@ func SeverSetClientIDMessage(id string) Message {
 	}
 }
 
+// ServerRoomStateUpdate stores the length of every string and list in one
+// byte; the hub keeps what it stores within that.
+const maxWireLen = 255
+
 func writeString(w *bitlib.Writer, s string) {
 	w.Byte(byte(len(s)))
 	w.WriteString(s)
